@@ -24,7 +24,7 @@ CLAIMED = {
     "C03": (_t("real sequences_split_bars, then every composition of the bar list into call groups threading one state dictionary, compared with the single-call stream; plus the carried-clock lemma with an unbounded symbolic clock."), "4 C03"),
     "C19": (_t("get_info against detokenise on every vocabulary stream up to the length bound, typed stream families and tokenise-produced streams (note placement identified by prefix difference through the public API)."), "4 C19"),
     "C04": ("Bounded symbolic model checking of ONE inductive step from every freshness state (each reached through public calls, the "
-            "stale slot holding an unrelated sequence) over a 45-operation alphabet with symbolic arguments: readability, agreement of the "
+            "stale slot holding an unrelated sequence) over a 39-operation alphabet with symbolic arguments: readability, agreement of the "
             "two raw views, and independence of the result from the freshness state (differential). Covers histories of any length by "
             "induction over the invariant, within the state-size bound.", "4 C04"),
     "C09": (_t("sequences_split_bars over concrete signature/key plans with symbolic note onsets and durations (crossing bar lines is the solver's choice), re-quantisation on and off."), "4 C09"),
